@@ -525,6 +525,7 @@ impl Property for C04 {
         let mut sc = std_scenario(seed, &swarm(seed, base, tier), None);
         maybe_unrequested_soft(seed, &mut sc, 4);
         sc.render = true;
+        sc.cancel_during_render = r.chance(1, 4);
         vec![sc]
     }
     fn judge(&self, sc: &Scenario) -> Verdict {
@@ -532,6 +533,9 @@ impl Property for C04 {
         let mut v = base_verdict(sc, &rec);
         v.evaluated = true;
         v.nontrivial = sc.world.n_solvables() >= 4 && v.faults.len() > 1;
+        if sc.cancel_during_render && rec.outcomes.iter().any(|o| matches!(o, Outcome::Unsolvable(_))) {
+            *v.faults.entry("cancel_during_render").or_insert(0) += 1;
+        }
         for (i, o) in rec.outcomes.iter().enumerate() {
             if let Some((c, d)) = crash_class(o) {
                 v.violate(c, format!("solve #{i}: {d}"));
